@@ -379,6 +379,7 @@ func (e *Exec) execInstr(fr *Frame, b *ssa.BasicBlock, ins ssa.Instruction, st *
 		}
 		fr.regs[x] = cur
 	case *ssa.Call:
+		e.curFrame = fr
 		fr.regs[x] = e.call(fr, st, x)
 	case *ssa.MakeClosure:
 		var binds []SV
